@@ -56,6 +56,27 @@ add('C19', 'Coq theorems about the partial branch of the model (Props/C19.v) + f
     'keywords naming positional-only/star parameters excluded (travel only through **kwargs; version-dependent).',
     'Coq proof over a Gallina model + extracted deciders + real execution')
 
+DISC_NOTE = ('The AST walker is modelled by hand (Model/Visitor.v) and compared with CallListerVisitor on the very tree the implementation sees, for every '
+             'generated program (and, in C07, every corpus function); resolving a marker to a Python object and computing the callee signature leave '
+             'the model. The semantics of Python statements is NOT formalised: soundness against execution is decided by really running the generated '
+             'programs (exploration), which the level note states as PARTIAL.')
+add('C05', 'Gallina model of Namespace/markers/CallListerVisitor/forward_signatures (Model/Visitor.v, Model/Discover.v) with theorems in Props/C05.v, extracted '
+    '(ocaml/vdriver) and compared with /repo on every generated forwarding program (visitor output and discovered signature); every pristine-forwarding program '
+    'is really executed on every non-colliding call shape its reported signature accepts; taint statements placed before the call must hide the callee parameters.',
+    'PARTIAL: proof covers the model of the walker and the algebra it feeds; execution semantics of Python is exploration. Known findings C05:bound-parameter-reaccepted, '
+    'C05:role-inconsistent-merge, C05:hide-kwargs-named-pok listed in known_findings.json. ' + DISC_NOTE,
+    'Coq proof over a Gallina model of the AST walker + extracted-model correspondence + real execution of generated programs')
+add('C06', 'Same model as C05; the expected signature and provenance are computed from the generator\'s ground truth with signatures.forwards / merge only and compared '
+    'with sigtools.signature(wrapper) over 13 statement contexts x 8 callee routes (global, closure, attribute chain, self.method, parameter via partial, functools.partial, '
+    'two-level chains by keyword and by position), plus invariance under irrelevant variation; model discovery = implementation discovery on every program.',
+    'PARTIAL in the same sense as C05. ' + DISC_NOTE,
+    'Coq proof over a Gallina model of the AST walker + independent ground-truth oracle + extracted-model correspondence')
+add('C12', 'Gallina model of _PokTranslator._prepare / __call__ / _merge_other / start= end= auto forms and a value-level CPython binder (Model/Modifiers.v); theorems for all '
+    'inputs in Props/C12.v (advertised signature, set-invariance, insert-loop refinement, positional routing); model evaluated inside Coq (vm_compute) against ~1.7k decorated '
+    'functions / 40k calls, implementation against a native def with the advertised signature on ~160k real calls.',
+    'C12_sig and C12_call are proved in their _partial forms (full statements kept in Proofs/Modifiers.v); known finding C12:bound-self-selected listed in known_findings.json.',
+    'Coq proof over a Gallina model + in-Coq evaluation correspondence + differential execution against native defs')
+
 
 def main():
     props = [json.loads(l)['id'] for l in open(os.path.join(VERIF, 'properties.jsonl'))]
